@@ -196,7 +196,7 @@ static inline void ref_enc(uint32_t c, unsigned L, unsigned char *o)
 /* ------------------------------------------------------------------ accounting */
 static struct
 {
-    uint64_t cp, prefix, trailing, dec, dec_cont, dec_nul, fold, lenw;
+    uint64_t cp, prefix, trailing, dec, dec_cont, dec_nul, fold, lenw, overlap;
 } acc;
 static uint64_t cpmap[8192]; /* one bit per 4096-code-point block */
 static void flush_case(void)
@@ -207,6 +207,7 @@ static void flush_case(void)
     VF_ADD("roundtrip-decode-length-and-value", acc.cp);
     VF_ADD("proper-prefix-rejected", acc.prefix);
     VF_ADD("roundtrip-with-trailing-bytes", acc.trailing);
+    VF_ADD("decode-result-cell-overlapping-the-input", acc.overlap);
     VF_ADD("decode-val-and-null-variants-agree", acc.dec + acc.cp);
     VF_ADD("decode-length-within-num-and-6", acc.dec);
     VF_ADD("decode-trailing-bytes-are-continuation", acc.dec_cont);
@@ -314,6 +315,23 @@ static void roundtrip(uint32_t c)
         {
             VIOL(keyL("decode/roundtrip-with-trailing-bytes", L), "U+%" PRIX32 " followed by %u more byte(s): a_utf_decode(%s, %u) = %u (val U+%" PRIX32 ") / %u (NULL), expected %u",
                  c, t, hex(q, L + t), L + t, d, v, d0, L);
+        }
+    }
+    /* the result cell overlapping the bytes being decoded: neither parameter is restrict-qualified, and converting a packed sequence in place
+     * (union { a_u32 cp; a_byte b[8]; }) is an ordinary way to call it - the value must still be the one the bytes denote (seeded change
+     * C18-J: the code point assembled directly in *val, which the loop then re-reads as input) */
+    {
+        static union { a_u32 w[4]; unsigned char b[16]; } ov;
+        unsigned const o = (c >> 5) & 3, cell = (o + L > 4) ? ((c >> 7) & 1) : 0; /* cell 1 only when the sequence reaches into it */
+        for (j = 0; j < 16; ++j) { ov.b[j] = 0xA5; }
+        for (j = 0; j < L; ++j) { ov.b[o + j] = e[j]; }
+        CUR(OP_DECODE, c, ov.b + o, L);
+        d = a_utf_decode(ov.b + o, L, &ov.w[cell]);
+        ++acc.overlap;
+        if (d != L || ov.w[cell] != c)
+        {
+            VIOL(keyL("decode/result-cell-overlaps-input", L), "U+%" PRIX32 " encoded as %s at byte offset %u of a 16-byte union, val = the union's 32-bit cell %u (overlapping the input): a_utf_decode = %u, val U+%" PRIX32 "; expected %u, U+%" PRIX32,
+                 c, hex(e, L), o, cell, d, ov.w[cell], L, c);
         }
     }
     CUR(OP_NONE, 0, NULL, 0);
